@@ -243,6 +243,9 @@ class C15(Check):
         # timeout (sqlite's busy handler waits it out): the entry must still get its end time and exit code
         rng4 = rng_for(seed, "C15-db-busy", index)
         plan["db_busy_at_end"] = rng4.choice([0.2, 1.5, 6.0]) if rng4.random() < 0.2 else None
+        # ... or the COMMIT that follows the UPDATE of the run entry fails once with "database is locked" (the transaction stays
+        # open; the commit of the database close that follows makes it durable)
+        plan["db_locked_commit_of_run_entry"] = plan["db_busy_at_end"] is None and not plan["db_close_error"] and rng4.random() < 0.15
         plan["odd_text"] = rng.random() < 0.3  # a marker message that is not valid UTF-8 (file name decoded with surrogateescape)
         plan["net_seed"] = rng.getrandbits(30)
         return plan
@@ -251,7 +254,7 @@ class C15(Check):
         import copy
 
         for key, val in (("lock", False), ("db", False), ("hooks", False), ("pre_hook", "absent"), ("post_hook", "absent"),
-                         ("sigint", None), ("sigint_frac", None), ("db_locked", False), ("db_close_error", False), ("db_busy_at_end", None), ("odd_text", False), ("pump", "eager"), ("artifacts", False), ("trace_log", False)):
+                         ("sigint", None), ("sigint_frac", None), ("db_locked", False), ("db_close_error", False), ("db_busy_at_end", None), ("db_locked_commit_of_run_entry", False), ("odd_text", False), ("pump", "eager"), ("artifacts", False), ("trace_log", False)):
             if plan.get(key) != val:
                 p = copy.deepcopy(plan)
                 p[key] = val
@@ -311,6 +314,24 @@ class C15(Check):
                 return None
 
             world.sql.fault = db_fault
+        if plan.get("db_locked_commit_of_run_entry") and plan.get("db"):
+            meta_state: dict[str, Any] = {"armed": False, "fired": False}
+            prev_fault2 = world.sql.fault
+
+            def commit_fault(conn: Any, sql: str) -> Exception | None:
+                if prev_fault2 is not None:
+                    e_ = prev_fault2(conn, sql)
+                    if e_ is not None:
+                        return e_
+                if sql.startswith("UPDATE run_meta SET end_time"):
+                    meta_state["armed"] = True
+                elif sql == "COMMIT" and meta_state["armed"] and not meta_state["fired"]:
+                    meta_state["fired"] = True
+                    bump(res["faults"], "database_locked_at_the_commit_of_the_run_entry")
+                    return sqlite3.OperationalError("database is locked")
+                return None
+
+            world.sql.fault = commit_fault
         if plan.get("db_busy_at_end") and plan.get("db"):
             world.sql.lock_triggers.append({"prefix": "UPDATE run_meta SET end_time", "dur": plan["db_busy_at_end"]})
         if plan.get("db_close_error"):
